@@ -31,6 +31,10 @@ D = 8
 # different content), engine 2 has a permuted table with an extra character (round-off may differ in the last bit)
 TABLES = {1: ["a", "b", "z", "~"], 2: ["z", "d", "c", "x", "~"], 3: ["e", "f", "z", "~"], 4: ["g", "h", "z", "~"]}
 LETTERS = {1: "ab", 2: "cd", 3: "ef", 4: "gh"}
+# "agreeing engines": every engine transcribes the same text (the common case in practice) over its own, differently ordered table
+TABLES_AGREE = {1: ["a", "b", "z", "~"], 2: ["z", "b", "a", "x", "~"], 3: ["b", "a", "z", "~"], 4: ["a", "z", "b", "~"]}
+LETTERS_AGREE = {1: "ab", 2: "ab", 3: "ab", 4: "ab"}
+_AGREE = {"on": False}
 # realisations of a level (mean confidence in 16ths): (style, per-character (label weight, distractor weight) over D)
 PALETTE = {
     0: [("ctc", [(2, 5)]), ("ctc", [(1, 4), (3, 3)])],
@@ -82,6 +86,7 @@ def _lab(c):
 
 def build_line(lid, engine, level, variant, empty_none):
     from pero_ocr.core.layout import TextLine
+    TABLES, LETTERS = (TABLES_AGREE, LETTERS_AGREE) if _AGREE["on"] else (globals()["TABLES"], globals()["LETTERS"])
     chars = TABLES[engine]
     nc = len(chars)
     blank = nc - 1
@@ -170,6 +175,7 @@ def _merge_case(case):
     try:
         variants = [(vseed // (3 ** k)) % 12 for k in range(nl)]
         empty_none = bool(vseed % 2)
+        _AGREE["on"] = (kind == "engines" and vseed % 3 == 0)
         if kind == "engines":
             built = [build_layout(e + 1, assign[e], variants, empty_none) for e in range(ne)]
             layouts = [b[0] for b in built]
